@@ -3,10 +3,15 @@ use super::Rule;
 use super::{Calculator, Controller};
 use crate::base::MetricEvent;
 use crate::{config, logging, utils};
+#[cfg(not(flea1lt_sentinel_rust_verif))]
 use std::sync::{
     atomic::{AtomicU64, Ordering},
     Arc, Weak,
 };
+#[cfg(flea1lt_sentinel_rust_verif)]
+use std::sync::{atomic::Ordering, Arc, Weak};
+#[cfg(flea1lt_sentinel_rust_verif)]
+use crate::verif::sync::{atomic::AtomicU64};
 
 #[derive(Debug)]
 pub struct WarmUpCalculator {
